@@ -6,7 +6,7 @@ Validity (the API contract): a zero-delay send carries a strictly smaller type t
 processed, so that it never sorts before it (larger type sorts first on equal timestamps)."""
 import argparse, json, os, random
 
-FAMILIES = ("mixed", "ties", "zerodelay", "fanout", "nonmono", "time0", "initdone", "sparse", "single", "chain", "pingpong")
+FAMILIES = ("mixed", "ties", "zerodelay", "fanout", "nonmono", "time0", "initdone", "sparse", "single", "chain", "pingpong", "relay")
 
 
 def gen_chain(seed, size):
@@ -74,7 +74,34 @@ def gen_pingpong(seed, size):
             "endmask": [1, 1], "payloads": pay, "init": init, "trans": trans}
 
 
+def gen_relay(seed, size):
+    """zero-delay relays: an event is forwarded unchanged (same timestamp, type and payload) from LP to LP, so that events with
+    identical order keys for different (and the same) LPs coexist; plus ordinary delayed traffic"""
+    r = random.Random(seed * 17 + 11)
+    n = r.choice([3, 4, 6])
+    K, T = 2, 2
+    pay = [{"size": 0, "padd": 0, "bytes": []}, {"size": 8, "padd": 1, "bytes": [r.randrange(256) for _ in range(8)]},
+           {"size": 40, "padd": 0, "bytes": [r.randrange(256) for _ in range(40)]}]
+    def snd(off, delay, ty, pid):
+        return {"drule": off, "drule2": off, "delay": delay, "ty": ty, "pid": pid}
+    trans = []
+    for s_ in range(K):
+        row = []
+        for ty in range(1, T + 1):
+            sends = [snd(r.choice([1, 1, 2]) % n or 1, 0, 0, -1)]           # forward unchanged, zero delay
+            if r.random() < 0.6:
+                sends.append(snd(r.randrange(n), r.choice([1, 2]), r.randint(1, T), r.randrange(3)))
+            row.append({"draw": 0, "lib": 0, "mem": r.choice([-1, 0]), "out": [{"ns": r.randrange(K), "sends": sends}]})
+        trans.append(row)
+    init = [[snd(0, r.choice([0, 1, 1, 2]), r.randint(1, T), r.randrange(3))] if r.random() < 0.7 or lp == 0 else [] for lp in range(n)]
+    need = [r.randint(2, 4) for _ in range(n)]
+    return {"seed": seed, "family": "relay", "nlps": n, "K": K, "T": T, "P": 3, "split": n, "need": need, "cap": [x + r.randint(1, 3) for x in need],
+            "endmask": [1] * K, "payloads": pay, "init": init, "trans": trans}
+
+
 def gen(seed, family="mixed", size="small"):
+    if family == "relay":
+        return gen_relay(seed, size)
     if family == "pingpong":
         return gen_pingpong(seed, size)
     if family.startswith("micro_"):
